@@ -298,15 +298,38 @@ func runC15(c *fw.Ctx, cs fw.Case) {
 			// the search goroutine is parked inside depth 1. Halt must not return until it is released.
 			halted := make(chan search.PV, 1)
 			go func() { halted <- handle.Halt() }()
+			// sometimes a second caller halts while the first is still waiting (a clock running out while the
+			// driver stops the search): it has to wait just the same
+			var second chan search.PV
+			if r.Intn(2) == 0 {
+				second = make(chan search.PV, 1)
+				time.Sleep(time.Duration(r.Intn(2000)) * time.Microsecond)
+				go func() { second <- handle.Halt() }()
+				c.Count("gated_overlapping_halts", 1)
+			}
 			early := false
 			select {
 			case pv := <-halted:
 				early = true
 				c.Violate("iter:halt-before-depth1", "Halt returned (depth %d, %d moves) while the depth-1 search was still inside an evaluation: %s", pv.Depth, len(pv.Moves), what)
 				halted <- pv
+			case pv := <-second:
+				early = true
+				c.Violate("iter:halt-before-depth1", "a second, overlapping Halt returned (depth %d, %d moves) while the depth-1 search was still inside an evaluation: %s", pv.Depth, len(pv.Moves), what)
+				second <- pv
 			case <-time.After(30 * time.Millisecond):
 			}
 			gate.open()
+			if second != nil {
+				select {
+				case pv := <-second:
+					if !early && (pv.Depth < 1 || len(pv.Moves) == 0) {
+						c.Violate("iter:halt-before-depth1", "the second of two overlapping Halts returned depth %d with %d moves: %s", pv.Depth, len(pv.Moves), what)
+					}
+				case <-time.After(60 * time.Second):
+					c.Violate("iter:halt-hang", "a second, overlapping Halt did not return within 60 s after the gate opened: %s", what)
+				}
+			}
 			var final search.PV
 			select {
 			case final = <-halted:
@@ -528,7 +551,7 @@ func init() {
 		Level:       "exploration",
 		Race:        true,
 		Technique:   "runtime trace checking of the PV stream against direct fixed-depth searches; gate evaluator that parks the search goroutine inside depth 1 while Halt is called; hook-point delays between store/publish of an iteration; enumerated time-control parameters; all under the race detector",
-		Rule:        "streams: four engine recipes x generated roots x depth limits (with and without a shared table): depths strictly increasing, each reported iteration equals a direct search (score; PV and nodes without table), end exactly at the limit or at the first forced mate within depth, Halt after the end returns the last iteration; halts: unlimited analysis halted after k reported iterations with random delays injected at iter.done/iter.stored/iter.sent/iter.halt.*: Halt returns a completed iteration >= every one reported before, never ended by itself; gate: search parked inside the j-th evaluation of depth 1 while Halt is called: Halt must not return before the gate opens (30 ms grace; correct code cannot return, so no false alarm) and then returns completed depth >= 1; limits: all combinations of 13 clock values x 21 moves-to-go values x 2 colours plus random ones: 0 <= soft <= hard <= remaining, no panic; clock: 0-2 ms clocks still complete depth 1; uciclock: UCI go lines with clocks (exact zeros, either order, movestogo, increments) on all four engines: the hard limit the search arms (observed at hook timectrl.hard) is within [0, mover's clock as sent]; engine default depth; distinct = distinct (recipe, history, parameters)",
+		Rule:        "streams: four engine recipes x generated roots x depth limits (with and without a shared table): depths strictly increasing, each reported iteration equals a direct search (score; PV and nodes without table), end exactly at the limit or at the first forced mate within depth, Halt after the end returns the last iteration; halts: unlimited analysis halted after k reported iterations with random delays injected at iter.done/iter.stored/iter.sent/iter.halt.*: Halt returns a completed iteration >= every one reported before, never ended by itself; gate: search parked inside the j-th evaluation of depth 1 while Halt is called (in half of the runs by two overlapping callers): Halt must not return before the gate opens (30 ms grace; correct code cannot return, so no false alarm) and then returns completed depth >= 1; limits: all combinations of 13 clock values x 21 moves-to-go values x 2 colours plus random ones: 0 <= soft <= hard <= remaining, no panic; clock: 0-2 ms clocks still complete depth 1; uciclock: UCI go lines with clocks (exact zeros, either order, movestogo, increments) on all four engines: the hard limit the search arms (observed at hook timectrl.hard) is within [0, mover's clock as sent]; engine default depth; distinct = distinct (recipe, history, parameters)",
 		Assumptions: []string{"gaps in the PV stream are legal: the one-slot channel deliberately drops an unread iteration", "clocks are non-negative (the quantifier of the property)"},
 		Timeout:     minutes(15, 120),
 		Cases: func(tier string, seed int64) []fw.Case {
@@ -542,7 +565,7 @@ func init() {
 			return l
 		},
 		Floors: func(string) map[string]int64 {
-			return map[string]int64{"limit_checks": 10000, "streams": 100, "iterations_compared": 500, "ended_by_mate": 3, "halts_after_k": 60, "gated_halts": 50, "clock_runs": 30, "engine_default_runs": 20, "explicit_no_limit_runs": 10, "uci_clock_gos": 100, "uci_clock_zero": 20}
+			return map[string]int64{"limit_checks": 10000, "streams": 100, "iterations_compared": 500, "ended_by_mate": 3, "halts_after_k": 60, "gated_halts": 50, "clock_runs": 30, "engine_default_runs": 20, "explicit_no_limit_runs": 10, "uci_clock_gos": 100, "uci_clock_zero": 20, "gated_overlapping_halts": 20}
 		},
 		Run: runC15,
 	})
